@@ -436,7 +436,7 @@ def c13(chk):
     # ---- C13.c: nobody else writes
     n_entries = 0
     for name in sorted(an.entries):
-        if name in (ENT,) or name.split('.')[0] in ('from',):
+        if name in (ENT,) or name.split('.')[0] in ('from', 'view'):
             continue
         if name.endswith('.set_eid'):
             continue
@@ -677,7 +677,7 @@ def c15(chk):
     # nobody else writes the context's plain fields
     n_entries = 0
     for name in sorted(an.entries):
-        if name == 'ctx.set_uuid' or name.split('.')[0] == 'from':
+        if name == 'ctx.set_uuid' or name.split('.')[0] in ('from', 'view'):   # a header view's `self` is not a context
             continue
         leaves, ena = an.leaves(name)
         n_entries += 1
